@@ -21,9 +21,6 @@ Inductive mclass :=
 | MLibAdd | MLibDrop | MDefAdd | MDefDrop | MPortAdd | MPortDrop
 | MCableAdd | MCableDrop | MInstAdd | MInstDrop.
 
-(* the classes the comparer notices on named netlists (all but the extra properties) *)
-Definition noticed (m : mclass) : bool := match m with MPropAdded => false | _ => true end.
-
 Inductive port_diff : mclass -> port -> port -> Prop :=
 | pd_dir p d' : d' <> p_dir p ->
     port_diff MPortDir p (mkport (p_name p) (p_oid p) d' (p_array p) (p_width p) (p_lower p))
@@ -64,6 +61,7 @@ Inductive inst_diff : mclass -> inst -> inst -> Prop :=
 | id_prop_entry i ps d : i_props i = Some ps ->
     inst_diff MPropAdded i (mkinst (i_name i) (i_oid i) (i_ref i) (Some (ps ++ [d])))
 | id_prop_key i ps l1 d kv l2 : i_props i = Some ps -> ps = l1 ++ d :: l2 ->
+    has_key (fst kv) d = false ->             (* a key that the entry does not have yet *)
     inst_diff MPropAdded i (mkinst (i_name i) (i_oid i) (i_ref i) (Some (l1 ++ (d ++ [kv]) :: l2))).
 
 Definition set_ports (d : defn) ps := mkdefn (d_name d) (d_oid d) ps (d_cables d) (d_insts d).
@@ -97,5 +95,5 @@ Inductive nv_diff : mclass -> nv -> nv -> Prop :=
 | nd_top m a t t' : n_top a = Some t -> inst_diff m t t' ->
     nv_diff m a (mknv (n_name a) (n_oid a) (Some t') (n_libs a)).
 
-(* b is a copy of a with one difference of a class the comparer notices *)
-Definition single_diff (a b : nv) : Prop := exists m, noticed m = true /\ nv_diff m a b.
+(* b is a copy of a with one difference of any class *)
+Definition single_diff (a b : nv) : Prop := exists m, nv_diff m a b.
